@@ -6,10 +6,10 @@ from .. import core, engine_evq, ties
 
 SPEC = {
     'level': 'exploration',
-    'rule': ('(a) operation sequences on the real Environment (schedule incl. attempts in the past, '
+    'rule': ('(a) operation sequences on the real Environment (schedule incl. attempts in the past, also by one ulp or one part in 10^10, '
              'pause/unpause/cancel, step, run split into consecutive runs, operations nested inside event '
              'actions, built-in and fractional priorities) judged online by the reference queue model: all '
-             'sequences up to length L (5 quick / 6 thorough) over a 9-op order-centric alphabet under '
+             'sequences up to length L (5 quick / 6 thorough) over a 10-op order-centric alphabet under '
              'fifo and lifo tie-breaks, then random sequences of length 10-80 under all tie policies, a '
              'third of them with decimal (non-representable) times and pauses aimed at due instants; '
              '(b) whole generated production lines (all device kinds, faults, maintenance) run with the same '
@@ -21,7 +21,7 @@ SPEC = {
                'thorough': {'dispatches_checked': 100000, 'tie_groups': 5000, 'run_windows_checked': 10000,
                             'past_rejected': 500, 'resumes_rounding_below_now': 100, 'second_execute_checked': 100000, 'line_dispatches_checked': 200000, 'line_tie_groups': 20000}},
     'exhaustive_key': 'exhaustive_sequences',
-    'exhaustive_text': 'all sequences up to the length bound over the 9-op alphabet (after the fixed prefix)',
+    'exhaustive_text': 'all sequences up to the length bound over the 10-op alphabet (after the fixed prefix)',
     'assumptions': ['priorities are above TERMINATE', 'step()/run() are not re-entered from inside an action',
                     'pause/cancel never target asset id -1'],
     'timeout_s': {'quick': 600, 'thorough': 3600},
@@ -31,7 +31,7 @@ PREFIX = [['sched', 1, 2, 5, None], ['sched', 2, 1, 5, None], ['run', 1]]
 ALPHABET = [['sched', 1, 0, 5, None], ['sched', 1, 1, 5, None], ['sched', 2, 1, 6.5, None],
             ['sched', 2, 1, 5, [['sched', 1, 0, 7, None]]],
             ['sched', 1, 1, 4, [['pause', 2]]],
-            ['unpause', 2], ['step'], ['run', 1], ['sched', 3, -0.5, 5, None]]
+            ['unpause', 2], ['step'], ['run', 1], ['sched', 3, -0.5, 5, None], ['sched', 3, 'eps', 5, None]]
 SUFFIX = [['run', 3], ['unpause', 2], ['run', 6]]
 
 
